@@ -54,6 +54,7 @@ theorem step_rev {c : Cfg} {s : State} (hi : Inv c s) (op : Op) {a b : OSet} (ha
     left; simp only [step] at hb; split at hb <;> exact same rfl hb
   | pause b' => left; exact same rfl hb
   | restart => left; exact same rfl hb
+  | limit l => left; exact same rfl hb
   | od f v sf =>
     left
     simp only [step] at hb
